@@ -144,3 +144,85 @@ func C14_Multibyte() {
 		nd.Assert(got[0] == "a" && got[1] == b && got[2] == "é", "multi-byte IFS fields")
 	}
 }
+
+// c14mb: the same statement at character level: segments and IFS are made of
+// symbolic characters over {a , blank é U+3000 U+00A0} (multi-byte characters
+// that are, and are not, white space), so IFS white space of several bytes
+// occurs at the start of the text, after another delimiter and at the end.
+const c14Runes = "a, é　 "
+
+func symRunes(n int) string {
+	s := ""
+	for i := 0; i < n; i++ {
+		s += string(nd.RuneIn(c14Runes))
+	}
+	return s
+}
+
+func refSplitRunes(segs []seg, ifs string) []string {
+	var fields []rfield
+	cur := rfield{}
+	for _, s := range segs {
+		if s.quoted {
+			cur.text += s.text
+			cur.quoted = true
+			continue
+		}
+		for _, r := range s.text {
+			cut := false
+			for _, d := range ifs {
+				if d == r {
+					cut = true
+				}
+			}
+			if cut {
+				fields = append(fields, cur)
+				cur = rfield{}
+			} else {
+				cur.text += string(r)
+			}
+		}
+	}
+	fields = append(fields, cur)
+	var out []string
+	for _, f := range fields {
+		if f.text != "" || f.quoted {
+			out = append(out, f.text)
+		}
+	}
+	return out
+}
+
+func c14mb(nseg, maxLen, ifsLen int) {
+	segs := make([]seg, nseg)
+	for i := range segs {
+		segs[i].quoted = nd.Choice(2) == 1
+		segs[i].text = symRunes(nd.Choice(maxLen + 1))
+	}
+	env := interp.NewExecEnv("sh")
+	env.Opts = interp.NoGlob
+	ifs := symRunes(ifsLen)
+	env.Set("IFS", ifs)
+	got, err := env.Expand(buildWord(segs), 0)
+	want := refSplitRunes(segs, ifs)
+	obs := ""
+	for _, s := range segs {
+		if s.quoted {
+			obs += "'" + s.text + "'"
+		} else {
+			obs += s.text
+		}
+	}
+	nd.Observe(obs + " IFS=" + ifs)
+	nd.Assert(err == nil, "field splitting reports no error")
+	nd.Assert(len(got) == len(want), "number of fields (multi-byte IFS)")
+	if len(got) == len(want) {
+		for i := range got {
+			nd.Assert(got[i] == want[i], "field content (multi-byte IFS)")
+		}
+	}
+}
+
+func C14_MB2() { c14mb(2, 2, 2) }
+func C14_MB3() { c14mb(3, 2, 2) }
+func C14_MB1L4() { c14mb(1, 4, 2) }
